@@ -102,6 +102,10 @@ func (r *visitorsRun) listen(name string) {
 	owner := r.sess[r.rnd.Intn(len(r.sess))]
 	kind := []string{"stcp", "stcp", "xtcp"}[r.rnd.Intn(3)]
 	allow := [][]string{{}, {}, {"bob"}, {"*"}, {"carol"}, {"alice", "bob"}, {""}}[r.rnd.Intn(7)]
+	r.listenAs(name, owner, kind, allow)
+}
+
+func (r *visitorsRun) listenAs(name string, owner *vSess, kind string, allow []string) {
 	sk := "sk-" + name
 	resp, err := owner.ap.NewProxy(&msg.NewProxy{ProxyName: name, ProxyType: kind, Sk: sk, AllowUsers: allow}, 3*time.Second)
 	ok := err == nil && resp.Error == ""
@@ -284,6 +288,16 @@ func (r *visitorsRun) one(traceNo, steps int) {
 		r.sess = append(r.sess, r.login(u))
 	}
 	names := []string{"x", "y", "z"}
+	// every history starts with the corner "owner without a user name, no allow list": the default list is the owner's (empty) user,
+	// so visitors of named users are refused
+	r.listenAs("x", r.sess[2], []string{"stcp", "xtcp"}[traceNo%2], []string{})
+	for k := 0; k < 4; k++ {
+		if traceNo%2 == 0 {
+			r.visitorConn("x")
+		} else {
+			r.hole("x")
+		}
+	}
 	for s := 0; s < steps; s++ {
 		name := names[r.rnd.Intn(len(names))]
 		switch x := r.rnd.Intn(100); {
